@@ -395,11 +395,8 @@ class dir_archive(archive):
         return NotImplemented if y is NotImplemented else not y
     __ne__.__doc__ = dict.__ne__.__doc__
     def __delitem__(self, key):
-        try:
-            memo = {key: None}
-            self._rmdir(key)
-        except:
-            memo = {}
+        memo = {key: None} if self.__contains__(key) else {}
+        self._rmdir(key)
         memo.__delitem__(key)
         return
     __delitem__.__doc__ = dict.__delitem__.__doc__
